@@ -385,8 +385,10 @@ pub fn overflow_glyph(cx: &mut Ctx, rng: &mut Rng) {
             expect_refused_or_exact(cx, "glyph-simple-contours", &exp, w, &mut |cx, b| rd_of(step_glyph(cx, b)), &|| J::obj(vec![("contours", J::U(n as u64)), ("what", J::s("n single-point contours, end_pts 0..n-1"))]));
         }
         4 => {
-            // more points than the last uint16 end point can announce
-            let n = *rng.pick(&[65536usize, 65537, 70000]);
+            // the largest point count the last uint16 end point can announce. (A value with more
+            // coordinates than its own end points announce is inconsistent rather than too large
+            // for a field: the statement does not say what becomes of it, so it is not generated.)
+            let n = 65536usize;
             let g = Glyph::Simple(SimpleGlyph {
                 bounding_box: gen_bbox(rng),
                 end_pts_of_contours: vec![65535],
@@ -397,7 +399,7 @@ pub fn overflow_glyph(cx: &mut Ctx, rng: &mut Rng) {
             let exp = fp_glyph("", &g);
             let gc = g.clone();
             let w = gwrite(cx, "Glyph::write", n * 8, |b| Glyph::write(b, gc));
-            expect_refused_or_exact(cx, "glyph-simple-points", &exp, w, &mut |cx, b| rd_of(step_glyph(cx, b)), &|| J::obj(vec![("points", J::U(n as u64)), ("end_pts", J::s("[65535]"))]));
+            expect_refused_or_exact(cx, "glyph-simple-points-at-limit", &exp, w, &mut |cx, b| rd_of(step_glyph(cx, b)), &|| J::obj(vec![("points", J::U(n as u64)), ("end_pts", J::s("[65535]"))]));
         }
         _ => {
             // glyf data too large for short loca offsets
